@@ -37,7 +37,7 @@ SPECS["C20"] = {
     "level_text": ("Every Unicode scalar value (strided in quick, all 1,112,064 in thorough) x 3 unit widths x {direct encoder, \\u escape in "
                    "upper, lower and mixed hex embedded in text} is compared with an encoder written from the standard; thorough is an "
                    "exhaustive enumeration of the stated input space, so for this finite space the exploration is complete."),
-    "level_note": "trusts the in-harness reference encoder (cross-checked against python3 str.encode by tools/c20_python_check.py) and clang/ASan",
+    "level_note": "trusts the in-harness reference encoder (written from the Unicode standard, 25 lines) and clang/ASan",
     "assumptions": ["reference encoder written in the harness from the Unicode standard",
                     "JSON::Parse is given an exact-size heap buffer under AddressSanitizer"],
 }
@@ -199,7 +199,7 @@ SPECS["C06"] = {
     "level_text": ("JSON::Parse of generated RFC 8259 text is compared structurally with the tree the text was spelled from (member order, duplicate-key rule, "
                    "code-unit-exact strings via a reference encoder, exact integers, reals within 1 ulp of strtod, lookup-by-key consistency). "
                    "The generator itself is validated on every case by an independent strict RFC 8259 parser. Sampling."),
-    "level_note": "trusts the in-harness reference encoder / strict parser and glibc strtod",
+    "level_note": "trusts the in-harness reference encoder / strict parser and glibc strtod; tools/python_crosscheck.py feeds the sampled documents to python3 json as a second opinion on the generator",
     "assumptions": ["lone surrogates are excluded (RFC 8259 section 8.2: unpredictable)"],
 }
 
@@ -252,7 +252,7 @@ SPECS["C08"] = {
     "level_text": ("Stringify(17) text is (1) parsed back by the library and compared with the model (Undefined members omitted, numbers by value), (2) re-stringified "
                    "and compared byte for byte (fixed point), (3) when all strings are well-formed, validated by a strict RFC 8259 parser written in the harness whose "
                    "tree (numbers via strtod) must equal the model. Sampling."),
-    "level_note": "trusts the in-harness strict parser and glibc strtod; python3 json.loads cross-checks sampled texts in tools/python_crosscheck.py",
+    "level_note": "trusts the in-harness strict RFC 8259 parser and glibc strtod",
     "assumptions": [],
 }
 
